@@ -15,6 +15,7 @@ import CelloProofs.Lemmas.SeqRun
 import CelloProofs.Lemmas.SortPerm
 import CelloProofs.Lemmas.SortSorted
 import CelloProofs.Lemmas.SeqTupDistinct
+import CelloProofs.Lemmas.SeqAlias
 
 namespace Cello.Seq
 variable {α : Type}
@@ -231,6 +232,82 @@ theorem C04_sort_int (a : Arr Int) :
   intro x y h
   simp only [decide_eq_false_iff_not] at h
   omega
+
+/-! ## aliased arguments (known findings KF-C04-self-assign, KF-C04-self-concat)
+
+  The refinement theorems above take the argument of `concat` / `assign` as a *value* (the abstract contents of the other
+  container): they cover every call whose `obj` is not `self`.  The full statements for `obj == self` are below; they are
+  false for the code as it is, with concrete witnesses, and `C04_self_alias_partial` states the part that does hold. -/
+
+/-- full statement: `assign(x, x)` leaves `x` as it was -/
+def C04_self_assign_statement : Prop :=
+  (∀ a : Arr Nat, a.assignSelf.1.items = a.items) ∧ (∀ l : Lst Nat, l.Inv → l.assignSelf.1.items = l.items)
+
+/-- **refuted**: `Array_Assign` / `List_Assign` clear the target before they read the source: `assign(a, a)` empties `[1]` -/
+theorem C04_self_assign_refuted : ¬ C04_self_assign_statement := by
+  intro h
+  have := h.1 ⟨[1], 1⟩
+  simp [Arr.assignSelf, Arr.assign, Arr.clear] at this
+
+/-- full statement: `concat(x, x)` completes, stays inside the object and doubles the sequence -/
+def C04_self_concat_statement : Prop :=
+  (∀ l : Lst Nat, l.Inv → ∃ fuel l', l.concatSelf fuel = some l' ∧ l'.items = l.items ++ l.items) ∧
+  (∀ t : Tup Nat, t.concatSelf.2 = .ok () ∧ t.concatSelf.1.items = t.items ++ t.items) ∧
+  (∀ a : Arr Nat, a.CapOk → a.concatSelf.2 = .ok () ∧ a.concatSelf.1.items = a.items ++ a.items)
+
+/-- **refuted**, each conjunct separately: a non-empty List never finishes, a non-empty Tuple and an Array whose
+    capacity is already `2·len` leave the object -/
+theorem C04_self_concat_refuted :
+    (¬ ∀ l : Lst Nat, l.Inv → ∃ fuel l', l.concatSelf fuel = some l' ∧ l'.items = l.items ++ l.items) ∧
+    (¬ ∀ t : Tup Nat, t.concatSelf.2 = .ok () ∧ t.concatSelf.1.items = t.items ++ t.items) ∧
+    (¬ ∀ a : Arr Nat, a.CapOk → a.concatSelf.2 = .ok () ∧ a.concatSelf.1.items = a.items ++ a.items) ∧
+    ¬ C04_self_concat_statement := by
+  have h1 : ¬ ∀ l : Lst Nat, l.Inv → ∃ fuel l', l.concatSelf fuel = some l' ∧ l'.items = l.items ++ l.items := by
+    intro h
+    obtain ⟨fuel, l', hl, _⟩ := h ⟨[1], 1⟩ rfl
+    rw [Lst.concatSelf_diverges ⟨[1], 1⟩ rfl (by simp) fuel] at hl
+    cases hl
+  have h2 : ¬ ∀ t : Tup Nat, t.concatSelf.2 = .ok () ∧ t.concatSelf.1.items = t.items ++ t.items := by
+    intro h
+    have := (h ⟨[1]⟩).1
+    simp [Tup.concatSelf, Tup.len] at this
+  have h3 : ¬ ∀ a : Arr Nat, a.CapOk → a.concatSelf.2 = .ok () ∧ a.concatSelf.1.items = a.items ++ a.items := by
+    intro h
+    have := (h ⟨[1, 2], 4⟩ (by simp [Arr.CapOk])).1
+    simp [Arr.concatSelf, Arr.nitems, reserveMore] at this
+  exact ⟨h1, h2, h3, fun h => h1 h.1⟩
+
+/-- **what does hold for aliased arguments**: `assign(t, t)` on a Tuple changes nothing; `concat(a, a)` on an Array
+    is right whenever the resulting capacity is at least `3·len` — in particular whenever the Array has to grow, because
+    `Array_Reserve_More` then makes it exactly `3·len`; every aliased call on an empty container is harmless. -/
+theorem C04_self_alias_partial (a : Arr α) (l : Lst α) (t : Tup α) :
+    t.assignSelf = (t, .ok ()) ∧
+    (a.nslots < 2 * a.nitems ∨ 3 * a.nitems ≤ a.nslots →
+      a.concatSelf.2 = .ok () ∧ a.concatSelf.1.items = a.items ++ a.items ∧ a.concatSelf.1.CapOk) ∧
+    (l.items = [] → l.Inv → ∀ fuel, l.concatSelf fuel = some l) ∧
+    (t.items = [] → t.concatSelf = (t, .ok ())) := by
+  refine ⟨rfl, ?_, ?_, ?_⟩
+  · intro h
+    have hn : a.nitems = a.items.length := rfl
+    unfold Arr.concatSelf
+    simp only
+    have hcond : ¬ (a.nitems > 0 ∧ 3 * a.nitems > reserveMore (a.nitems + a.nitems) a.nslots) := by
+      unfold reserveMore
+      split <;> omega
+    rw [if_neg hcond]
+    refine ⟨rfl, rfl, ?_⟩
+    simp only [Arr.CapOk, List.length_append]
+    unfold reserveMore
+    split <;> omega
+  · intro he hinv fuel
+    have h0 : l.nitems = 0 := by have : l.nitems = l.items.length := hinv; rw [this, he]; rfl
+    unfold Lst.concatSelf Lst.iterInit
+    rw [if_pos h0]
+    cases fuel <;> rfl
+  · intro he
+    have : t.len = 0 := by unfold Tup.len; rw [he]; rfl
+    unfold Tup.concatSelf
+    rw [if_pos this]
 
 /-! ## non-vacuity -/
 
